@@ -4,7 +4,7 @@ from __future__ import annotations
 import ast
 
 from .common import site_of
-from .flow import (Oblig, calls, events, deps_of, arg_deps, SELF, P, facts_on_path, has_fact, check_escapes)
+from .flow import (both_answers, Oblig, calls, events, deps_of, arg_deps, SELF, P, facts_on_path, has_fact, check_escapes)
 
 LL = "pyformlang.cfg.llone_parser.LLOneParser"
 EXPLANATION = (
@@ -116,7 +116,7 @@ def run(eng, rep, tier):
     sp = interp.run_entry(fp, LL)
     consts = {ev.value.const for ev in sp.events if ev.kind == "ret" and ev.value is not None and ev.value.has_const()}
     lens = [ev for ev in sp.events if ev.kind == "bcall" and ev.callee == "len"]
-    ob.decide("R1", "C14.3", fp, "verdict-reads-every-cell", consts == {True, False} and bool(lens),
+    ob.decide("R1", "C14.3", fp, "verdict-reads-every-cell", both_answers(sp) and bool(lens),
               "the LL(1) verdict is False exactly when some cell holds more than one production",
               "is_llone_parsable does not inspect the length of the cells", sp, site=site_of(prog, fp, fp.node))
 
